@@ -765,6 +765,43 @@ def gen_disc_churn(rng):
     return g.lines
 
 
+def math_copysign_inf(x):
+    return float("inf") if x > 0 else float("-inf")
+
+
+def gen_cdisc(rng, nops):
+    """the Discretization copy inside control::KPIECE1: addMotion with motion->steps as coverage weight (0 for start
+    motions), selectMotion, score + grid.update, iteration counter, unchecked border fraction, clear."""
+    g = DGen(rng, dim=rng.choice([1, 2, 2, 3, 4]))
+    g.lines = ["disc dim=%d variant=control" % g.dim]
+    for _ in range(nops):
+        r = rng.below(100)
+        if r < 50 or not g.live:
+            x = g.coord()
+            par = -1 if (g.next == 0 or rng.chance(1, 4)) else rng.below(g.next)
+            steps = 0 if par < 0 and rng.chance(2, 3) else rng.choice([1, 1, 2, 5, 10, 0])
+            dist = rng.choice([0.0, 1.0, rng.unit() * 10, rng.unit() * 1e-3])
+            g.lines.append(("addw %d %d %s %s" % (par, steps, g.cs(x), core.f2bits(dist))).replace("  ", " "))
+            g.coord_of[g.next] = x
+            g.live.append(g.next)
+            g.next += 1
+        elif r < 75:
+            g.sel()
+        elif r < 85:
+            g.score()
+        elif r < 92:
+            g.lines.append("iter")
+        elif r < 97:
+            g.lines.append("bf " + core.f2bits(rng.choice([0.5, 0.8, 1.0, 0.0, rng.unit(), 1.5])))
+        elif r < 99:
+            g.lines.append("clear")
+            g.live = []
+        else:
+            g.lines.append(rng.choice(["addw 0", "sel", "score 1", "add -1 0 0"]))
+    g.lines += ["sel 1"]
+    return g.lines
+
+
 def parse_ddump(s):
     sec = s.split(" | ")
     if len(sec) != 3:
@@ -795,6 +832,8 @@ def disc_well_formed(t, dim):
     op = t[0]
     if op == "add":
         return len(t) == dim + 3 and isint(t[1]) and all(isint(z) for z in t[2:2 + dim]) and isnat(t[-1])
+    if op == "addw":
+        return len(t) == dim + 4 and isint(t[1]) and isnat(t[2]) and all(isint(z) for z in t[3:3 + dim]) and isnat(t[-1])
     if op == "sel":
         return len(t) == 2 and isnat(t[1])
     if op == "score":
@@ -810,13 +849,14 @@ def disc_well_formed(t, dim):
 
 def disc_oracle(script, out, stats=None):
     """motion/cell bookkeeping of the property, evaluated on the implementation's output only."""
-    dim = int(script[0].split("=")[1])
+    dim = int(script[0].split()[1].split("=")[1])
+    control = script[0].endswith("variant=control")
     limit = 2 * dim
     live = {}          # motion -> coordinate, in insertion order (dicts keep it)
     parent = {}
     nxt = 0
     iteration = 1
-    bf = 0.9
+    bf = 0.8 if control else 0.9
     meta = {}          # coordinate -> dict(cov, sel, iter) expected for the cell currently at that coordinate
     prev = None
     for i, line in enumerate(script[1:]):
@@ -824,7 +864,8 @@ def disc_oracle(script, out, stats=None):
             return (i, "implementation stopped at `%s` (crash or sanitizer report)" % line)
         o = out[i]
         t = line.split()
-        if not disc_well_formed(t, dim) or (t[0] == "add" and not (-1 <= int(t[1]) < nxt)):
+        if not disc_well_formed(t, dim) or (t[0] in ("add", "addw") and not (-1 <= int(t[1]) < nxt)) or \
+                (t[0] == "addw") != (control and t[0] in ("add", "addw")) or (control and t[0] in ("rm", "pd")):
             if o != "bad-op":
                 return (i, "ill-formed line answered %r" % o)
             continue
@@ -840,16 +881,21 @@ def disc_oracle(script, out, stats=None):
         touched = None     # coordinate of the cell whose importance must be fresh after this op
         bumped = False
         selx = None
-        if op == "add":
-            x = tuple(map(int, t[2:2 + dim]))
+        if op in ("add", "addw"):
+            off_ = 3 if op == "addw" else 2
+            wgt = float(int(t[2])) if op == "addw" else 1.0       # control::KPIECE1: coverage counts motion->steps
+            x = tuple(map(int, t[off_:off_ + dim]))
             created = 0 if x in live.values() else 1
             live[nxt] = x
             parent[nxt] = int(t[1])
             exp = "m=%d created=%d" % (nxt, created)
             if created:
-                meta[x] = {"cov": 1.0, "sel": 1, "iter": iteration}
+                meta[x] = {"cov": wgt, "sel": 1, "iter": iteration}
+                if control:   # the initial score, as coded: (1 + log(iteration)) / (DISTANCE_TO_GOAL_OFFSET + dist)
+                    import math
+                    meta[x]["score0"] = (1.0 + math.log(float(iteration))) / (1e-3 + core.bits2f(t[-1]))
             else:
-                meta[x]["cov"] += 1.0
+                meta[x]["cov"] += wgt
             nxt += 1
             touched = x
         elif op == "rm":
@@ -871,6 +917,9 @@ def disc_oracle(script, out, stats=None):
                 touched = x
         elif op == "iter":
             iteration += 1
+            exp = "ok"
+        elif op == "bf" and control:
+            bf = core.bits2f(t[1])      # control::KPIECE1::setBorderFraction has no range check
             exp = "ok"
         elif op == "bf":
             b = core.bits2f(t[1])
@@ -954,6 +1003,8 @@ def disc_oracle(script, out, stats=None):
             if c["cov"] != mt["cov"] or c["sel"] != mt["sel"] or c["iter"] != mt["iter"]:
                 return (i, "cell %d at %s: coverage=%g selections=%d iteration=%d, expected %g %d %d"
                         % (cid, x, c["cov"], c["sel"], c["iter"], mt["cov"], mt["sel"], mt["iter"]))
+            if control and "score0" in mt and op == "addw" and x == touched and len(c["motions"]) == 1 and c["score"] != mt["score0"]:
+                return (i, "cell %d: initial score %r, expected (1+log(iteration))/(1e-3+dist) = %r" % (cid, c["score"], mt["score0"]))
             # importance = computeImportance at the last event; only `selections` may have moved on since
             ok = False
             if x == touched:
@@ -964,8 +1015,11 @@ def disc_oracle(script, out, stats=None):
                 sels = range(c["sel"], 0, -1)
             for s_ in sels:
                 den = (float(cnt + 1) * c["cov"]) * float(s_)
-                val = c["score"] / den if den != 0.0 else None
-                if val is not None and (val == c["imp"] or (val != val and c["imp"] != c["imp"])):
+                if den != 0.0:
+                    val = c["score"] / den
+                else:      # coverage 0 (a start motion of control::KPIECE1 has steps 0): IEEE division by zero
+                    val = float("nan") if (c["score"] == 0.0 or c["score"] != c["score"]) else math_copysign_inf(c["score"])
+                if val == c["imp"] or (val != val and c["imp"] != c["imp"]):
                     ok = True
                     break
             if not ok:
@@ -996,9 +1050,24 @@ def build_disc(ck):
     return ck.build_harness("discretization", ["discretization.cpp"], link_ompl=True, extra=HARNESS_EXTRA)
 
 
+def build_ckpiece(ck):
+    return ck.build_harness("ckpiece", ["ckpiece.cpp"], link_ompl=True, extra=HARNESS_EXTRA)
+
+
+def canon_nan(line):
+    """Lean's Float.toBits canonicalises NaNs (0x7ff8000000000000); x86 produces the negative default NaN for 0.0/0.0.
+    NaN payloads and signs are not compared: every NaN bit pattern is rewritten to the canonical one on both sides."""
+    def f(m):
+        v = int(m.group(0))
+        if v < (1 << 64) and (v & 0x7FF0000000000000) == 0x7FF0000000000000 and (v & 0x000FFFFFFFFFFFFF):
+            return "9221120237041090560"
+        return m.group(0)
+    return re.sub(r"\d{19,20}", f, line)
+
+
 def run_disc(ck, hbin, script):
     impl, rc, err, model = ck.run_pair(hbin, DISC_DRIVER, script)
-    return impl or [], rc, err or "", model
+    return [canon_nan(l) for l in (impl or [])], rc, err or "", [canon_nan(l) for l in model]
 
 
 def judge_disc(ck, hbin, script, tag, pre=None):
@@ -1011,7 +1080,7 @@ def judge_disc(ck, hbin, script, tag, pre=None):
     ck.case(("disc",) + tuple(script), nsel >= 3 and nrm >= 2)
     ck.count("disc:scripts:" + tag)
     ck.count("disc:ops", len(script) - 1)
-    ck.count("disc:dim:%s" % script[0].split("=")[1])
+    ck.count("disc:dim:%s" % script[0].split()[1].split("=")[1])
     for k, v in stats.items():
         ck.count("disc:" + k, v)
     for ln, o in zip(script[1:], impl):
@@ -1029,7 +1098,7 @@ def judge_disc(ck, hbin, script, tag, pre=None):
         if budget[0] > 0:
             budget[0] -= 1
             for attempt in range(24):
-                g = DGen(r, dim=int(script[0].split("=")[1]))
+                g = DGen(r, dim=int(script[0].split()[1].split("=")[1]))
                 cont = []
                 for _ in range(r.range(5, 40)):
                     z = r.below(10)
@@ -1950,7 +2019,7 @@ GN_DRIVER = "drv_gridn"
 def gen_gridn(rng, nops):
     """plain GridN with the split protocol: createCell, then add -- or remove + destroyCell WITHOUT add (a tentative cell
     given back) --, and removals of present cells; emphasis on abandoned cells next to present ones, repeated."""
-    dim = rng.choice([1, 2, 2, 2, 3])
+    dim = rng.choice([1, 1, 2, 2, 2, 3, 4, 5])
     limit = "default" if rng.chance(1, 3) else rng.range(1, 2 * dim + 1)
     if rng.chance(1, 2):
         bounds = None
@@ -1963,6 +2032,7 @@ def gen_gridn(rng, nops):
     lines = ["gridn dim=%d limit=%s %s" % (dim, limit, hdr_b)]
     present = []
     cs = lambda x: " ".join(map(str, x))
+    setters = rng.chance(1, 2)
 
     def coord():
         if present and rng.chance(3, 5):
@@ -1991,13 +2061,44 @@ def gen_gridn(rng, nops):
             x = rng.choice(present)
             lines.append("rm " + cs(x))
             present.remove(x)
-        elif r < 88:
+        elif r < 84:
             lines.append(rng.choice(["add", "abandon"]))
-        elif r < 95:
+        elif r < 88:
             lines.append("rm " + cs(coord()))
+        elif r < 92:
+            lines.append(rng.choice(["has ", "nb "]) + cs(coord()))
+        elif r < 95:
+            lines.append("obs")
+        elif r < 97 and setters:
+            # the setters after first use (lens a/e): limit lowered/raised, bounds moved, dimension changed once empty
+            z = rng.below(10)
+            if z < 5:
+                lines.append("setlimit %d" % rng.range(1, 2 * dim + 1))
+            elif z < 8:
+                lo = [rng.range(-2, 0) for _ in range(dim)]
+                up = [lo[i] + (0 if rng.chance(1, 6) else rng.range(1, 3)) for i in range(dim)]
+                bounds = (lo, up)
+                lines.append("setbounds " + cs(lo + up))
+            else:
+                # the same dimension again (a planner's repeated setup()): `busy` with cells, a no-op without
+                lines.append("setdim %d" % dim + ("" if bounds is None else " " + cs(list(bounds[0]) + list(bounds[1]))))
+                if rng.chance(1, 2):
+                    nd = rng.range(1, 5)
+                    ln = "setdim %d" % nd
+                    if bounds is not None:
+                        lo = [rng.range(-2, 0) for _ in range(nd)]
+                        up = [lo[i] + rng.range(0, 3) for i in range(nd)]
+                        bounds = (lo, up)
+                        ln += " " + cs(lo + up)
+                    lines += ["abandon", "clear", ln]
+                    present = []
+                    dim = nd
+        elif r < 98:
+            lines.append("clear")
+            present = []
         else:
-            lines.append(rng.choice(["create 1", "add 3", "rm", "abandon now"]))
-    lines += ["abandon", "add"]
+            lines.append(rng.choice(["create 1", "add 3", "rm", "abandon now", "obs 1", "has"]))
+    lines += ["abandon", "add", "obs"]
     return lines
 
 
@@ -2012,6 +2113,10 @@ def gridn_oracle(script, out, stats=None):
         v = list(map(int, t[4:]))
         lo, up = v[:dim], v[dim:]
     bd = lambda x: 0 if lo is None else sum(1 for i in range(dim) if x[i] == lo[i] or x[i] == up[i])
+    overridden = lim != "default"
+    late = False     # a setter was called while cells existed: counts/flags of the existing cells are not recomputed
+    bdc = {}         # id -> boundary sides counted when the cell was created
+    flag = {}        # id -> (count, border) the cell must show
     present = {}     # coord -> id
     pending = None   # (id, coord)
     nxt = 0
@@ -2022,8 +2127,12 @@ def gridn_oracle(script, out, stats=None):
         o = out[i]
         tk = line.split()
         op = tk[0]
-        wf = (op == "create" and len(tk) == dim + 2 and all(isint(z) for z in tk[1:])) or (op in ("add", "abandon") and len(tk) == 1) or \
-             (op == "rm" and len(tk) == dim + 1 and all(isint(z) for z in tk[1:]))
+        wf = (op == "create" and len(tk) == dim + 2 and all(isint(z) for z in tk[1:])) or (op in ("add", "abandon", "obs", "clear") and len(tk) == 1) or \
+             (op in ("rm", "has", "nb") and len(tk) == dim + 1 and all(isint(z) for z in tk[1:])) or \
+             (op == "setlimit" and len(tk) == 2 and tk[1].isdigit() and 1 <= int(tk[1]) <= 1000000) or \
+             (op == "setbounds" and len(tk) == 2 * dim + 1 and all(isint(z) for z in tk[1:])) or \
+             (op == "setdim" and len(tk) >= 2 and tk[1].isdigit() and 1 <= int(tk[1]) <= 8 and all(isint(z) for z in tk[2:]) and
+              len(tk) - 2 == (2 * int(tk[1]) if lo is not None else 0))
         if not wf:
             if o != "bad-op":
                 return (i, "ill-formed line answered %r" % o)
@@ -2040,6 +2149,7 @@ def gridn_oracle(script, out, stats=None):
                 exp = "present"
             else:
                 pending = (nxt, x)
+                bdc[nxt] = bd(x)
                 exp = "c=%d" % nxt
                 nxt += 1
         elif op == "add":
@@ -2066,6 +2176,56 @@ def gridn_oracle(script, out, stats=None):
                 exp = "1"
             else:
                 exp = "absent"
+        elif op == "has":
+            x = tuple(map(int, tk[1:]))
+            exp = "1 c=%d" % present[x] if x in present else "0"
+        elif op == "nb":
+            x = tuple(map(int, tk[1:]))
+            wantn = sorted(present[y] for y in nb_coords(x) if y in present)
+            r_ = res.split()
+            if not all(z.isdigit() for z in r_) or int(r_[0]) != len(r_) - 1 or sorted(map(int, r_[1:])) != wantn:
+                return (i, "neighbors(%s) answered %r, the present cells one step away are %s" % (x, res, wantn))
+            exp = res
+        elif op == "clear":
+            if pending is not None:
+                exp = "busy"
+            else:
+                present = {}
+                exp = "ok"
+        elif op in ("setlimit", "setbounds", "setdim"):
+            if pending is not None or (op == "setdim" and present):
+                exp = "busy"
+            else:
+                exp = "ok"
+                late = late or bool(present)
+                v = list(map(int, tk[1:]))
+                if op == "setlimit":
+                    limit, overridden = v[0], True
+                elif op == "setbounds":
+                    lo, up = v[:dim], v[dim:]
+                else:
+                    dim = v[0]
+                    if lo is not None:
+                        lo, up = v[1:1 + dim], v[1 + dim:]
+                    if not overridden:
+                        limit = 2 * dim
+        elif op == "obs":
+            kv = dict(z.split("=", 1) for z in res.split())
+            ids = sorted(present.values())
+            lst = lambda v: [] if v == "-" else list(map(int, v.split(",")))
+            if lst(kv["cells"]) != ids:
+                return (i, "getCoordinates/getCells list cells %s, present are %s" % (kv["cells"], ids))
+            if len(lst(kv["content"])) != len(ids):
+                return (i, "getContent returned %d values for %d cells" % (len(lst(kv["content"])), len(ids)))
+            sp_ = Spec.__new__(Spec)
+            sp_.cells = {x: [cid, 0] for x, cid in present.items()}
+            part = sp_.partition()
+            got = [] if kv["comps"] == "-" else [list(map(int, c.split(","))) for c in kv["comps"].split(";")]
+            if got != part or lst(kv["sizes"]) != [len(c) for c in part]:
+                return (i, "components %s (sizes %s), the neighbour relation partitions the cells into %s" % (got, kv["sizes"], part))
+            if kv["status"] != "%d/%d" % (len(ids), len(part)):
+                return (i, "status() reports %s, expected %d cells in %d components" % (kv["status"], len(ids), len(part)))
+            exp = res
         if res != exp:
             return (i, "`%s` answered %r, expected %r" % (line, res, exp))
         sec = dump.split(" | ")
@@ -2079,20 +2239,44 @@ def gridn_oracle(script, out, stats=None):
         if (pd == "-") != (pending is None):
             return (i, "pending cell %r, expected %r" % (pd, pending))
         pcoord = pending[1] if pending is not None else None
+        # the count is the number of present neighbours + the boundary sides counted at creation (+ an adjacent created
+        # cell); the flag is re-evaluated only when the count moves: up -> it can only turn interior, down -> only border.
+        # As long as no setter ran with cells present this is the closed form `border <=> count < limit`, checked as such.
+        nflag = {}
+
+        def expect(cid, x, want):
+            old = flag.get(cid)
+            if old is None:
+                b_ = want < limit
+            elif want > old[0]:
+                b_ = old[1] and want < limit
+            elif want < old[0]:
+                b_ = old[1] or want < limit
+            else:
+                b_ = old[1]
+            if not late and b_ != (want < limit):
+                raise AssertionError("oracle: flag state machine left the closed form without a late setter")
+            nflag[cid] = (want, b_)
+            return b_
         for x, (cid, nb, b) in cells.items():
             real = sum(1 for y in nb_coords(x) if y in present)
-            want = real + bd(x) + (1 if (pcoord is not None and pcoord in nb_coords(x)) else 0)
-            if nb != want or b != (want < limit):
+            want = real + bdc[cid] + (1 if (pcoord is not None and pcoord in nb_coords(x)) else 0)
+            wb = expect(cid, x, want)
+            if nb != want or b != wb:
                 return (i, "cell %d at %s reports neighbors=%d border=%d, but it has %d present neighbours, %d boundary sides%s: "
                            "expected neighbors=%d border=%d (interior limit %d)"
-                        % (cid, x, nb, b, real, bd(x), " and 1 adjacent created-not-yet-added cell" if want != real + bd(x) else "",
-                           want, want < limit, limit))
+                        % (cid, x, nb, b, real, bdc[cid], " and 1 adjacent created-not-yet-added cell" if want != real + bdc[cid] else "",
+                           want, wb, limit))
         if pending is not None:
             f = pd.split(":")
             real = sum(1 for y in nb_coords(pcoord) if y in present)
-            want = real + bd(pcoord)
-            if int(f[2]) != want or (f[3] == "1") != (want < limit):
-                return (i, "created cell at %s reports neighbors=%s border=%s, expected %d / %d" % (pcoord, f[2], f[3], want, want < limit))
+            want = real + bdc[pending[0]]
+            wb = expect(pending[0], pcoord, want)
+            if int(f[2]) != want or (f[3] == "1") != wb:
+                return (i, "created cell at %s reports neighbors=%s border=%s, expected %d / %d" % (pcoord, f[2], f[3], want, wb))
+        flag = nflag
+        if stats is not None and late:
+            stats["gn:ops-after-late-setter"] += 1
     return None
 
 
@@ -2345,6 +2529,7 @@ def setup(ck):
     build_kpiece(ck)
     build_lbkpiece(ck)
     build_gridn(ck)
+    build_ckpiece(ck)
 
 
 EXH_CFGS = [
@@ -2413,7 +2598,7 @@ def run(ck):
     quick = ck.tier == "quick"
     allcorpus = corpus()
     jobs = [(name, script, "corpus", 1) for name, script in allcorpus if script[0].startswith("grid ")]
-    djobs = [(name, script, "corpus") for name, script in allcorpus if script[0].startswith("disc")]
+    djobs = [(name, script, "corpus") for name, script in allcorpus if script[0].startswith("disc") and not script[0].endswith("variant=control")]
     ndisc, nchurn = (140, 60) if quick else (1500, 600)
     for i in range(ndisc):
         r = ck.rng.fork("disc%d" % i)
@@ -2477,6 +2662,23 @@ def run(ck):
                 if bad >= 3:
                     break
                 if judge_disc(ck, dbin, script, tag, pre) is False:
+                    bad += 1
+        # ---- engine 2b: the copy of the Discretization code inside control::KPIECE1 (anchored KPIECE1.h)
+        cbin = build_ckpiece(ck)
+        cjobs = [(name, script, "corpus") for name, script in allcorpus if script[0].startswith("disc") and script[0].endswith("variant=control")]
+        for i in range(70 if quick else 700):
+            r = ck.rng.fork("cdisc%d" % i)
+            cjobs.append(("cdisc%d" % i, gen_cdisc(r, r.choice([15, 40, 100])), "control-kpiece"))
+        bad = 0
+        for a in range(0, len(cjobs), chunk):
+            if bad >= 3:
+                break
+            part = cjobs[a:a + chunk]
+            pres = list(ex.map(lambda j: run_disc(ck, cbin, j[1]), part))
+            for (name, script, tag), pre in zip(part, pres):
+                if bad >= 3:
+                    break
+                if judge_disc(ck, cbin, script, tag, pre) is False:
                     bad += 1
         # ---- engine 3: the real KPIECE1 against its model
         kbin = build_kpiece(ck)
